@@ -354,7 +354,17 @@ def judge(rec, files, main=MAIN):
             sl, sc, el, ec, syn = m["loc"]
             f = m["file"]
             if syn:
-                out.append(("compiler-bug-location:" + m["creator"], "message %r carries a synthetic location" % m["text"][:80]))
+                # `$next` is the one user-written token that synthetics.py replaces by a synthesized expression; the
+                # replacement must keep the user's position usable, so a synthetic location that exactly covers a
+                # user-written `$next` is its own class (not the listed finding about synthesized size fields)
+                covered = None
+                if f in known and sl == el and 0 < sl <= len(known[f].splitlines()):
+                    covered = known[f].splitlines()[sl - 1][sc - 1:ec - 1]
+                if covered == "$next":
+                    out.append(("compiler-bug-location-on-user-token:" + m["creator"],
+                                "message %r carries a synthetic location although it points at the user's `$next` at %d:%d" % (m["text"][:80], sl, sc)))
+                else:
+                    out.append(("compiler-bug-location:" + m["creator"], "message %r carries a synthetic location" % m["text"][:80]))
                 continue
             if f == "" or f is None:
                 text = _prelude()
@@ -544,6 +554,9 @@ def build_inputs(ctx, n_fuzz):
     # seed-independent: static references x forms x positions; attribute names x back ends x values x scopes
     inputs += gen_fuzz.static_reference_cases()
     inputs += gen_fuzz.attribute_cases()
+    # seed-independent: identifier shapes in every naming position; 64-bit ranges with user-written and synthesized expressions
+    inputs += gen_fuzz.identifier_shape_cases()
+    inputs += gen_fuzz.wide_range_cases()
     n_corpus = len(inputs)
     seen = set()
     while len(inputs) < n_fuzz + n_corpus:
